@@ -40,8 +40,20 @@ class Cut(Exception):
     """Injected failure (a call or store operation raising at a chosen point of the run)."""
 
 
+class HardCut(BaseException):
+    """Injected failure that is NOT an `Exception` (as SystemExit, GeneratorExit, asyncio.CancelledError are): a failed call
+    or store operation all the same - the run must not return normally."""
+
+
 class Env:
+    def injected(self, msg):
+        """every third injected failure of a history is a BaseException that is not an Exception"""
+        self.armed += 1
+        return (HardCut if self.armed % 3 == 0 and not self.soft_only else Cut)(msg)
+
     def __init__(self):
+        self.armed = 0
+        self.soft_only = False
         self.clock = 10
         self.rec = plans.Rec()
         self.cut_at = None       # index of the event at which to raise Cut
@@ -61,7 +73,7 @@ class Env:
         self.count += 1
         if self.cut_at is not None and k == self.cut_at:
             self.rec.add("cut", *ev)
-            raise Cut("cut at event %d %r" % (k, ev))
+            raise self.injected("cut at event %d %r" % (k, ev))
 
 
 class MemStore(uberjob.ValueStore):
@@ -251,7 +263,7 @@ def build_cache(spec, env):
             args = tuple(pos) + tuple(kw.values())      # keyword arguments in the order received
             env.event("call", i)
             if i in b.failing:
-                raise Cut("call %d fails" % i)
+                raise env.injected("call %d fails" % i)
             if writes is not None:
                 b.ver[writes] = b.ver.get(writes, 0) + 1
                 b.payload[writes] = ("a", i) + tuple(args)      # what the producer computed this content from
